@@ -122,6 +122,7 @@ type Outcome struct {
 	st      *State
 	results []Val
 	panics  bool
+	site    string // source position of the return statement (top-level outcomes)
 }
 
 type unsupported struct{ msg string }
@@ -474,7 +475,7 @@ func (e *Engine) runBlockAt(fr *Frame, st *State, b *ssa.BasicBlock, from *ssa.B
 				for i, r := range x.Results {
 					res[i] = e.materialize(e.val(fr, st, r), r.Type())
 				}
-				*outs = append(*outs, Outcome{st: st, results: res})
+				*outs = append(*outs, Outcome{st: st, results: res, site: e.pos(x)})
 				return
 			case *ssa.Panic:
 				e.onPanic(fr, st, x, "explicit panic")
